@@ -58,6 +58,7 @@ impl Property for C14 {
             "explicit_close",
             "owner_terminated_by_failure_resource_closed",
             "handle_in_mailbox_of_finished_process_closed",
+            "second_resource_kind_used",
             "ownership_returned_to_earlier_owner",
             "transfer_below_closure_top_level",
             "process_owning_two_resources_closed",
@@ -71,7 +72,7 @@ impl Property for C14 {
         let neps = 1 + rng.usize(4);
         let mut kinds = Vec::new();
         for k in 0..neps {
-            let kind = rng.below(15);
+            let kind = rng.below(18);
             h.u64(kind);
             kinds.push(kind);
             let aw = |rng: &mut Rng, awaits: &mut Vec<String>, name: String| {
@@ -80,6 +81,42 @@ impl Property for C14 {
                 }
             };
             match kind {
+                15 => {
+                    // a second kind of resource (an address iterator): used, then closed / left open / the
+                    // owner fails while it is open
+                    let mode = rng.below(3);
+                    h.u64(mode);
+                    let tail = match mode {
+                        0 => "c = r __dns_close__, a __binary_length__",
+                        1 => "a __binary_length__",
+                        _ => "[a __binary_length__, 0] __integer_divide__",
+                    };
+                    lines.push(format!("d{k} = @#{{ r = \"host{k}\" .0 __dns_resolve__, a = r __dns_next__, {tail} }}"));
+                    aw(rng, &mut awaits, format!("d{k}"));
+                }
+                16 => {
+                    // resolver handed to a keeper; the giver then does nothing, reads it or closes it (refused)
+                    let ua = rng.below(3);
+                    h.u64(ua);
+                    let after = match ua {
+                        0 => "0",
+                        1 => "x = [r __dns_next__], 0",
+                        _ => "x = r __dns_close__, 0",
+                    };
+                    lines.push(format!("kd{k} = @#{{ x = !#\\DnsResolver, a = x __dns_next__, b = x __dns_next__, [a __binary_length__, b __binary_length__] __integer_add__ }}"));
+                    lines.push(format!("gd{k} = &kd{k} @#(@\\DnsResolver) {{ =kp, r = \"give{k}\" .0 __dns_resolve__, a = r __dns_next__, r kp, {after} }}"));
+                    aw(rng, &mut awaits, format!("kd{k}"));
+                    aw(rng, &mut awaits, format!("gd{k}"));
+                }
+                17 => {
+                    // a file and a resolver in one message
+                    lines.push(format!("t{k} = @#{{ !#[\\File, \\DnsResolver] =[f, r], d = [f, 0, 4] __file_read__, a = r __dns_next__, [d __binary_length__, a __binary_length__] __integer_add__ }}"));
+                    lines.push(format!("f{k} = [\"/e{k}\" .0, 577, 420] __file_open__"));
+                    lines.push(format!("w{k} = [f{k}, 0, 0x01020304] __file_write__"));
+                    lines.push(format!("r{k}d = \"pair{k}\" .0 __dns_resolve__"));
+                    lines.push(format!("[f{k}, r{k}d] t{k}"));
+                    aw(rng, &mut awaits, format!("t{k}"));
+                }
                 14 => {
                     // a slow owner: opens a file, then waits for a go message that a timer process sends
                     // later; main gives up on it after a short timeout and may have finished long before the
@@ -209,7 +246,7 @@ impl Property for C14 {
         for (i, a) in awaits.iter().enumerate() {
             lines.push(format!("r{i} = ! [{a}, 400]"));
         }
-        if use_after && let Some((k, _)) = kinds.iter().enumerate().find(|(_, kd)| matches!(**kd, 2 | 3 | 6 | 7 | 10 | 11 | 12 | 13)) {
+        if use_after && let Some((k, _)) = kinds.iter().enumerate().find(|(_, kd)| matches!(**kd, 2 | 3 | 6 | 7 | 10 | 11 | 12 | 13 | 17)) {
             lines.push(format!("z = [f{k}, 0, 1] __file_read__"));
             h.u64(0xdead);
         }
@@ -298,6 +335,21 @@ fn resources_in(v: &Value, depth: u8, out: &mut Vec<(usize, u8)>) {
     }
 }
 
+/// The resource an effect operates on, read off the effect itself (not through `Effect::resource_id`,
+/// which is part of what is being checked).
+fn rid_of(e: &NativeEffect) -> Option<quiver_core::value::ResourceId> {
+    match e {
+        NativeEffect::FileOpen { .. } | NativeEffect::DnsResolve { .. } => None,
+        NativeEffect::FileRead { resource_id, .. }
+        | NativeEffect::FileWrite { resource_id, .. }
+        | NativeEffect::FileFlush { resource_id }
+        | NativeEffect::FileClose { resource_id }
+        | NativeEffect::DnsNext { resource_id }
+        | NativeEffect::DnsClose { resource_id } => Some(*resource_id),
+        other => other.resource_id(),
+    }
+}
+
 fn op_matches(op: &BackendOp, e: &NativeEffect) -> bool {
     match (op, e) {
         (BackendOp::Open { .. }, NativeEffect::FileOpen { .. }) => true,
@@ -305,6 +357,9 @@ fn op_matches(op: &BackendOp, e: &NativeEffect) -> bool {
         (BackendOp::Write { rid, .. }, NativeEffect::FileWrite { resource_id, .. }) => rid == resource_id,
         (BackendOp::Flush { rid }, NativeEffect::FileFlush { resource_id }) => rid == resource_id,
         (BackendOp::Close { rid }, NativeEffect::FileClose { resource_id }) => rid == resource_id,
+        (BackendOp::Open { .. }, NativeEffect::DnsResolve { .. }) => true,
+        (BackendOp::Read { rid }, NativeEffect::DnsNext { resource_id }) => rid == resource_id,
+        (BackendOp::Close { rid }, NativeEffect::DnsClose { resource_id }) => rid == resource_id,
         (BackendOp::Other, _) => true,
         _ => false,
     }
@@ -440,7 +495,10 @@ impl Monitor for ResMonitor {
                     }
                 }
                 Event::EffectRequest { process_id, effect } => {
-                    let rid = effect.resource_id();
+                    if matches!(effect, NativeEffect::DnsResolve { .. } | NativeEffect::DnsNext { .. } | NativeEffect::DnsClose { .. }) {
+                        self.probe("second_resource_kind_used");
+                    }
+                    let rid = rid_of(effect);
                     let matches_next = q.front().is_some_and(|r| matches!(r, BackendRec::Execute { pid, op, .. } if pid == process_id && op_matches(op, effect)));
                     match rid {
                         Some(r) if self.open.contains(&r) => {
